@@ -529,6 +529,62 @@ def r5(ctx):
                    sig="coordinates %s -> %s" % (label, got) if t.result[0] == "return" else "Feature.__init__ raises %s" % (t.result[1],))
 
 
+FILES = {
+    "GFF3": ("file.gff3", "ID", [
+        "chr1\tsrc\tgene\t100\t900\t.\t+\t.\tID=g1;Name=G one",
+        "chr1\tsrc\tmRNA\t100\t900\t.\t+\t.\tID=t1;Parent=g1",
+        "chr1\tsrc\texon\t100\t200\t.\t+\t.\tID=e1;Parent=t1;note=a%3Bb,c d",
+        "chr1\tsrc\texon\t300\t900\t0.5\t-\t2\tID=e2;Parent=t1;description=similar to kinase 1, putative",
+        "chr1\tsrc\texon\t950\t990\t.\t+\t.\tID=e3;Parent=t1,t0;flag",
+        "chr2\tsrc 2\tregion\t.\t.\t.\t.\t.\tID=r1;pct=100%25;Dbxref=A:1,B:2",
+        "chr1\tsrc\texon\t995\t999\t.\t+\t.\tID=e4;Parent=t1;description=similar to kinase 2, putative\textra1\textra 2",
+    ]),
+    "GFF3 with blanks after the semicolons": ("spaced.gff3", "ID", [
+        "chr1\tsrc\tgene\t100\t900\t.\t+\t.\tID=g1; Name=G1",
+        "chr1\tsrc\tmRNA\t100\t900\t.\t+\t.\tID=t1; Parent=g1; Note=x",
+        "chr1\tsrc\texon\t100\t200\t.\t+\t.\tID=e1; Parent=t1; Note=y,z",
+    ]),
+    "GTF": ("file.gtf", None, [
+        'chr1\tsrc\texon\t100\t200\t.\t+\t.\tgene_id "g1"; transcript_id "t1"; exon_number "1";',
+        'chr1\tsrc\texon\t300\t400\t.\t+\t.\tgene_id "g1"; transcript_id "t1"; exon_number "2"; note "two words";',
+        'chr1\tsrc\tCDS\t150\t350\t.\t+\t0\tgene_id "g1"; transcript_id "t1"; protein_id "p1";',
+        'chr2\tsrc\texon\t10\t90\t.\t-\t.\tgene_id "g2"; transcript_id "t2"; exon_number "1";',
+    ]),
+}
+
+
+def r_lines(ctx):
+    """Line in, line out: create_db evaluated end to end on small files (the package's own iterators, parser, importer and
+    model database), every stored feature printed, and each data line of the file found again byte for byte."""
+    from . import scen
+    f = require_func(ctx, "feature.Feature.__unicode__")
+    n = 0
+    for label, (path, id_attr, lines) in FILES.items():
+        for head in (["##gff-version 3", "#a comment", ""], []):
+            for checklines in (1, 2, 10):
+                text = "\n".join(head + lines) + "\n"
+                it, db, t = scen.create_db_from_text(ctx, text, path=path, checklines=checklines)
+                n += 1
+                where = "%s file, %s, checklines=%d" % (label, "with a header" if head else "no header", checklines)
+                if not scen.returned(ctx, t, "create_db (%s)" % where, func=f, rule="R6"):
+                    continue
+                fdb = t.result[1]
+                ta = scen.call_method(ctx, it, fdb, "interface.FeatureDB.all_features")
+                feats = list(ta.result[1]) if ta.result[0] == "return" else []
+                out = [scen.printed(ctx, it, x) for x in feats]
+                # derived features of a GTF import are additional lines; the file's own lines must all be there, in file order
+                own = [o for o in out if o in lines]
+                bad = None
+                if own != lines:
+                    missing = [ln for ln in lines if ln not in out]
+                    k = lines.index(missing[0]) if missing else None
+                    near = [o for o in out if isinstance(o, str) and missing and o.split("\t")[:5] == missing[0].split("\t")[:5]]
+                    bad = "line %d is not printed back: %r; the database prints %r" % (k + 1, missing[0], near[:1]) if missing else "lines printed in another order"
+                ctx.ob("R6", bad is None, "every data line of a consistently written file is printed back byte for byte by the features of the database built from it, "
+                       "in file order (%s)" % where, func=f, sig="%s: %d lines printed back" % (where, len(lines)) if bad is None else "%s: %s" % (where, bad))
+    ctx.floor("R6", n, 12, "files imported end to end")
+
+
 def check(ctx):
     ctx.explanation = (
         "Writer/reader table agreement decided on folded constants and the AST: CREATE TABLE, _INSERT, _SELECT, _UPDATE, "
@@ -539,6 +595,7 @@ def check(ctx):
         "(no ORDER BY: SQLite's scan order) or re-import equivalence.")
     r1(ctx)
     r_scenario(ctx)
+    r_lines(ctx)
     r3(ctx)
     r4(ctx)
     r5(ctx)
